@@ -9,3 +9,5 @@ open GV.FieldLoopsGen
 #print axioms C01gen_legendre_eq_model
 #print axioms C01gen_legendre_chain
 #print axioms C01gen_legendre
+#print axioms C01gen_inverse_tail
+#print axioms C01gen_inverse_tail_zero
